@@ -152,7 +152,7 @@ func everyIterationAppends(f *ssa.Function, produces func(c *ssa.Call) bool) (bo
 				if !ok {
 					continue
 				}
-				if bi, ok := c.Call.Value.(*ssa.Builtin); !ok || bi.Name() != "append" {
+				if bi, ok := c.Call.Value.(*ssa.Builtin); !ok || nm(bi) != "append" {
 					continue
 				}
 				// the variadic slice is built from an Alloc whose element store takes prod (possibly via MakeInterface/Extract)
